@@ -175,6 +175,9 @@ func genCase(t *rapid.T, path string, strHeavy bool) Case {
 		alphabet = keys12[:7]
 	}
 
+	if rapid.Bool().Draw(t, "extra") {
+		c.Extra = rapid.IntRange(1, 2).Draw(t, "extra_records")
+	}
 	maxOps := 12
 	switch {
 	case strHeavy:
@@ -185,6 +188,11 @@ func genCase(t *rapid.T, path string, strHeavy bool) Case {
 	minOps := 1
 	if path == "emit" {
 		c.Emit = g.genKVs(t, alphabet, 12)
+		c.EmitSpare = rapid.IntRange(0, 3).Draw(t, "emit_spare")
+		if sc := rapid.IntRange(0, 5).Draw(t, "emit_scribble"); sc >= 3 {
+			c.EmitScribble = sc - 2
+		}
+		c.EmitTwice = rapid.IntRange(0, 2).Draw(t, "emit_twice") == 0
 		minOps = 0
 	}
 	if strHeavy && rapid.IntRange(0, 9).Draw(t, "first_set_all") < 6 {
@@ -206,13 +214,33 @@ func genCase(t *rapid.T, path string, strHeavy bool) Case {
 		switch {
 		case k < 3:
 			op.Op = "set"
-		case k < 9 || strHeavy:
+		case k < 8 || (k == 8 && strHeavy):
 			op.Op = "add"
-		default:
+		case k == 8:
 			op.Op = "clone"
+		default:
+			op.Op = "new"
 		}
 		op.Rec = rapid.IntRange(0, maxRecords-1).Draw(t, "rec")
-		if op.Op != "clone" {
+		if op.Op == "clone" || op.Op == "new" {
+			return op
+		}
+		// the hostile caller: where the arguments live and what happens to
+		// that memory once the call has returned.
+		switch a := rapid.IntRange(0, 9).Draw(t, "arg"); {
+		case a < 4:
+		case a < 6:
+			op.Arg = "spare"
+			op.Spare = rapid.IntRange(1, 4).Draw(t, "spare")
+		case a < 8:
+			op.Arg = "scratch"
+		default:
+			op.Arg = "same"
+		}
+		if sc := rapid.IntRange(0, 5).Draw(t, "scribble"); sc >= 3 {
+			op.Scribble = sc - 2
+		}
+		if op.Arg != "same" {
 			op.KVs = g.genKVs(t, alphabet, 10)
 		}
 		return op
